@@ -671,6 +671,24 @@ Next ==
 
 Spec == Init /\ [][Next]_allvars
 
+\* fairness for the liveness form of C05: every internal step of an operation
+\* in progress, of the reader goroutine, of the watcher and of the server's
+\* library code is eventually taken.  Nothing obliges the threads to start new
+\* operations, the handler to return, the context to end or the connection to
+\* break.
+Fair ==
+  /\ WF_allvars(SendCheckDone \/ SendLock \/ SendWrite \/ SendRet)
+  /\ WF_allvars(\E t \in Closers : CloseDo(t) \/ CloseRet(t))
+  /\ WF_allvars(RtReply \/ RtCancelled \/ ReadFrame \/ DeliverEval \/ DeliverCtx \/ ReaderFin)
+  /\ WF_allvars(Watcher)
+  /\ WF_allvars(HeaderDone)
+  /\ WF_allvars(RecvCheckDone \/ RecvSelect \/ RecvProbe \/ RecvWoken \/ RecvSecond)
+  /\ WF_allvars(HRecvRead \/ HRecvProbe)
+  /\ WF_allvars(HSendDo \/ HSendRet)
+  /\ WF_allvars(Tail1)
+
+FairSpec == Spec /\ Fair
+
 -----------------------------------------------------------------------------
 TypeOK == cctx \in {"live", "cancel", "deadline"}
 
@@ -694,4 +712,9 @@ Progress ==
   \/ ENABLED Watcher \/ ENABLED Tail1
 C05_NoStuck ==
   ((cctx # "live") \/ (pc["h"] = "done" /\ closeSend)) => (~ClientParked \/ Progress)
+\* C05, liveness form: once the context is done, or the handler has finished
+\* and the client has closed its send side (so that net/http lets the reply
+\* out), every client operation in progress returns
+AllIdle == \A t \in {"cs", "cs2", "cr"} : pc[t] = "idle"
+C05_Live == (CDone \/ (pc["h"] = "done" /\ closeSend)) ~> AllIdle
 =============================================================================
